@@ -64,9 +64,9 @@ type modelL2 struct {
 	Vals      map[string]*mVal // by operator
 	Last      map[string]int64 // last powers by operator
 	Bridge    *opchildtypes.BridgeInfo
-	Blocked   map[string]bool // address bytes that cannot receive funds
-	AcctSeq   map[string]uint64 // hook signer label -> account sequence
-	AcctNum   map[string]uint64 // hook signer label -> account number
+	Blocked   map[string]bool      // address bytes that cannot receive funds
+	AcctSeq   map[string]uint64    // hook signer label -> account sequence
+	AcctNum   map[string]uint64    // hook signer label -> account number
 	hooks     map[string]*hookSpec // payload hex -> spec
 	SeqUnsure map[string]bool      // hook signer label -> sequence not known until the end of the block
 	// credited / refunded bookkeeping per denom (C09)
@@ -558,30 +558,41 @@ func (m *modelL2) stepRemoveVal(x *opchildtypes.MsgRemoveValidator, bc blockCtx)
 	}}
 }
 
-func (m *modelL2) paramsValid(pr *opchildtypes.Params) bool {
+// paramsValid returns "" for acceptable parameters, else which part is not and whose business that is.
+func (m *modelL2) paramsValid(pr *opchildtypes.Params) (string, []string) {
 	if pr == nil {
-		return false
+		return "nil", nil
 	}
 	if _, ok := validAddr(pr.Admin); !ok {
-		return false
+		return "admin", []string{"C12"}
 	}
 	for _, e := range pr.BridgeExecutors {
 		if _, ok := validAddr(e); !ok {
-			return false
+			return "bridge-executor", []string{"C12"}
 		}
 	}
 	for _, e := range pr.FeeWhitelist {
 		if _, ok := validAddr(e); !ok {
-			return false
+			return "fee-whitelist", []string{"C20"}
 		}
 	}
-	return pr.MinGasPrices.Validate() == nil && pr.MaxValidators != 0
+	if pr.MinGasPrices.Validate() != nil {
+		return "min-gas-prices", []string{"C20"}
+	}
+	if pr.MaxValidators == 0 {
+		return "max-validators", []string{"C13"}
+	}
+	return "", nil
 }
 
 func (m *modelL2) stepParams(x *opchildtypes.MsgUpdateParams, bc blockCtx) stepOut {
 	var p pred
-	if _, ok := validAddr(x.Authority); !ok || !m.paramsValid(x.Params) {
+	if _, ok := validAddr(x.Authority); !ok {
 		p.failBecause("params.invalid", "invalid-params-msg")
+		return stepOut{P: p}
+	}
+	if why, owners := m.paramsValid(x.Params); why != "" {
+		p.failBecause("params.invalid", "invalid-params:"+why, owners...)
 		return stepOut{P: p}
 	}
 	if x.Authority != m.Authority {
